@@ -284,7 +284,11 @@ func cmdCheck(eng *Engine, args []string) int {
 	sort.Strings(fnNames)
 	var as []string
 	for a := range assumed {
-		as = append(as, "assumed contract of external function "+a)
+		if strings.HasPrefix(a, "ASSUME ") {
+			as = append(as, "unchecked assume clause of "+a[7:])
+		} else {
+			as = append(as, "assumed contract of external function "+a)
+		}
 	}
 	sort.Strings(as)
 	as = append(as, standingAssumptions...)
